@@ -29,6 +29,17 @@ Proof.
 Qed.
 Print Assumptions C18_only_matching.
 
+(* Successive responses on a keep-alive connection: whatever context the previous
+   response left behind (any state [prev]: byte offset, armed action, header
+   bytes outstanding), a response that matches no shape performs no action and
+   delivers every byte, for all writes and grant streams. *)
+Theorem C18_nonmatching_after_any_context : forall g ws prev v acts thr rs hl s' evs r,
+  run g (fst (respond prev v acts thr false rs hl)) ws = (s', evs, r) ->
+  forallb (fun e => negb (is_action_ev e)) evs = true /\ (forall n, r <> RClosed n) /\
+  exists rest, concat ws = emitted evs ++ rest /\ (is_ok r = true -> rest = []).
+Proof. exact nonmatching_after_any_context. Qed.
+Print Assumptions C18_nonmatching_after_any_context.
+
 Theorem C18_invalid_range_unshaped : forall v acts thr m rs hl lt i,
   rs <= -1 -> shaping (fst (open_ctx v acts thr m rs hl lt i)) = false.
 Proof. exact open_ctx_bad_range. Qed.
@@ -106,6 +117,22 @@ Theorem C18_counts_decremented : forall acts0 thr rs hl lt i g ws s' evs r,
     (forall a, In a todo -> Zlength (emitted evs) <= hl + (abyte a - rs)).
 Proof. exact counts_after_run. Qed.
 Print Assumptions C18_counts_decremented.
+
+(* Successive responses: after any run the action list (with its updated counts)
+   is still sorted, with the same bytes and kinds, and a matching response after
+   any previous context starts from [shaped_start] on that list -- so the
+   theorems above apply again to the next response on the connection. *)
+Theorem C18_next_response_same_hypotheses : forall acts0 thr rs hl lt i g ws s' evs r,
+  StronglySorted by_byte acts0 -> 0 <= hl -> rs > -1 -> (forall k, 0 < g k) ->
+  run g (shaped_start acts0 thr rs hl lt i) ws = (s', evs, r) ->
+  StronglySorted by_byte (acts s') /\ map abyte (acts s') = map abyte acts0 /\ map kind (acts s') = map kind acts0.
+Proof. exact sorted_after_run. Qed.
+Print Assumptions C18_next_response_same_hypotheses.
+
+Theorem C18_matching_response_after_any_context : forall prev acts thr rs hl,
+  fst (respond prev true acts thr true rs hl) = shaped_start acts thr rs hl (lat prev) (gi prev).
+Proof. exact respond_matched. Qed.
+Print Assumptions C18_matching_response_after_any_context.
 
 (* the hypothesis on the action list is what validation guarantees *)
 Theorem C18_accepted_actions_sorted : forall sc sh,
